@@ -62,6 +62,13 @@ def build_expr(af, e, pool):
         for name, sub in e.get("extra", []):
             setattr(m, name, build_expr(af, sub, pool))
         return m
+    if t == "array":
+        import itertools
+        arr = af.Array(tuple(e["shape"]))
+        indices = list(itertools.product(*[range(d) for d in e["shape"]]))
+        for j in e["order"]:
+            arr[indices[j]] = build_expr(af, e["elems"][j], pool)
+        return arr
     if t == "coll":
         items = []
         for k, sub in e["items"]:
@@ -123,6 +130,13 @@ def abstract_model(af, obj, idmap):
                 continue
             attrs.append([k, abstract_model(af, v, idmap)])
         return {"t": "model", "cls": obj.cls.__name__, "attrs": attrs}
+    if type(obj).__name__ == "Array":
+        attrs = []
+        for k, v in obj.__dict__.items():
+            if k.startswith("_") or k in ("id", "shape", "indices"):
+                continue
+            attrs.append([k, abstract_model(af, v, idmap)])
+        return {"t": "array", "shape": list(obj.shape), "attrs": attrs}
     if isinstance(obj, Collection):
         attrs = []
         for k, v in obj.__dict__.items():
@@ -141,6 +155,8 @@ def abstract_instance(af, obj):
         return {"t": "v", "v": hexf(float(obj))}
     if isinstance(obj, tuple):
         return {"t": "tup", "vs": [abstract_instance(af, x) for x in obj]}
+    if type(obj).__name__ == "ndarray":
+        return {"t": "arr", "shape": list(obj.shape), "vs": [hexf(float(x)) for x in obj.ravel()]}
     if isinstance(obj, ModelInstance):
         return {"t": "coll", "fields": [[str(k), abstract_instance(af, v)] for k, v in obj.dict.items()]}
     if type(obj).__name__ in vclasses.CLASSES:
